@@ -110,6 +110,8 @@ theorem nodeOK_reinit (st : NodeSt) (h : NodeOK st) (req : ReinitReq) (now : Tim
   unfold reinitDKG
   split
   · exact h
+  split
+  · exact h
   · unfold reinitLoop
     have hl := (reinit_loop_safe st.skipVerify now payloadOf ((beforeSigning req.inner).filter (replayed st.self req.dkgId)) (st, []) h).1
     generalize ((beforeSigning req.inner).filter (replayed st.self req.dkgId)).foldl (reinitStep st.skipVerify now payloadOf) (st, []) = res at hl
